@@ -93,6 +93,9 @@ fn scenario(n: u16, rounds: u16, reads: u16) {
     }
     kernel::settle();
     let peer = net::connect_from("10.0.0.1:502".parse().unwrap(), "10.0.9.9:4000".parse().unwrap()).expect("listening");
+    // a second session on the same server: whatever the application and the first session are doing,
+    // its requests are answered with the handler's data too
+    let peer2 = net::connect_from("10.0.0.1:502".parse().unwrap(), "10.0.9.8:4001".parse().unwrap()).expect("listening");
     kernel::settle();
     let sp = Arc::new(SendPtr(server));
     let sp2 = sp.clone();
@@ -115,7 +118,15 @@ fn scenario(n: u16, rounds: u16, reads: u16) {
         let tx = 100 + k;
         let req = [(tx >> 8) as u8, tx as u8, 0, 0, 0, 6, 1, 3, 0, 0, (n >> 8) as u8, n as u8];
         peer.write(&req);
+        let tx2 = 400 + k;
+        let req2 = [(tx2 >> 8) as u8, tx2 as u8, 0, 0, 0, 6, 1, 3, 0, 0, 0, 1];
+        peer2.write(&req2);
         kernel::settle();
+        let got2 = peer2.take_received();
+        READS.fetch_add(1, Ordering::Relaxed);
+        if got2.len() != 11 || got2[..2] != req2[..2] || got2[7] != 3 {
+            panic!("second session: a read of an existing register sent while the first session and the application use the handler was answered with {:02x?}", got2);
+        }
         let got = peer.take_received();
         READS.fetch_add(1, Ordering::Relaxed);
         if got.len() == 9 + 2 * n as usize && got[7] == 3 {
@@ -357,8 +368,8 @@ fn main() {
             let out = std::process::Command::new(exe).args(["_replay", &path]).output().expect("child");
             let stderr = String::from_utf8_lossy(&out.stderr).to_string();
             let file = std::path::Path::new(&path).file_name().map(|f| f.to_string_lossy().to_string()).unwrap_or_default();
-            let prop = if file.starts_with("C01") { "C01" } else if file.starts_with("C02") { "C02" } else if file.starts_with("C17") { "C17" } else if file.starts_with("C18") { "C18" } else { "C19" };
-            let (needle, rule) = if prop == "C01" { ("", "reply_under_lock_contention") } else if file.contains("-bcast") { ("broadcast lost", "broadcast_lost") } else { ("torn read", "torn_read") };
+            let prop = if file.starts_with("C15") { "C15" } else if file.starts_with("C01") { "C01" } else if file.starts_with("C02") { "C02" } else if file.starts_with("C17") { "C17" } else if file.starts_with("C18") { "C18" } else { "C19" };
+            let (needle, rule) = if prop == "C15" { ("", "session_disturbed_under_lock_contention") } else if prop == "C01" { ("", "reply_under_lock_contention") } else if file.contains("-bcast") { ("broadcast lost", "broadcast_lost") } else { ("torn read", "torn_read") };
             match stderr.lines().find(|l| l.contains("PANIC:") && l.contains(needle)) {
                 Some(l) => {
                     println!("VIOLATION property={} replay={}", prop, path);
@@ -371,7 +382,7 @@ fn main() {
                 }
             }
         }
-        Some(prop @ ("C19" | "C01" | "C02" | "C17" | "C18")) => {
+        Some(prop @ ("C19" | "C01" | "C02" | "C17" | "C18" | "C15")) => {
             let prop = prop.to_string();
             let mut tier = std::env::var("VERIF_TIER").unwrap_or_else(|_| "quick".into());
             if let Some(i) = args.iter().position(|a| a == "--tier") {
@@ -386,6 +397,10 @@ fn main() {
                 // write must be answered with the handler's data, never with an exception nobody raised) and the
                 // broadcast scenario
                 vec![("random-n8", false, 8, it_rand / 2), ("bcast-n2-random", false, 2, it_rand / 4)]
+            } else if prop == "C15" {
+                // two sessions and the application contend for the handler: each session's requests are answered
+                // with the handler's data (sessions are independent)
+                vec![("random-n8", false, 8, it_rand / 2), ("pct-n8", true, 8, it_pct / 2)]
             } else if prop == "C18" {
                 vec![("random-n8", false, 8, it_rand / 2), ("pct-n8", true, 8, it_pct / 2)]
             } else if prop == "C19" {
@@ -393,7 +408,7 @@ fn main() {
             } else {
                 vec![("bcast-n2-random", false, 2, it_rand / 2), ("bcast-n3-random", false, 3, it_rand / 2), ("bcast-n2-pct", true, 2, it_pct)]
             };
-            let (rule, what) = if prop == "C01" { ("reply_under_lock_contention", "requests_checked") } else if prop == "C19" || prop == "C18" { ("torn_read", "multi_point_reads_checked") } else { ("broadcast_lost", "broadcasts_checked") };
+            let (rule, what) = if prop == "C15" { ("session_disturbed_under_lock_contention", "requests_checked") } else if prop == "C01" { ("reply_under_lock_contention", "requests_checked") } else if prop == "C19" || prop == "C18" { ("torn_read", "multi_point_reads_checked") } else { ("broadcast_lost", "broadcasts_checked") };
             let mut failure: Option<String> = None;
             let mut batches = Vec::new();
             for (name, pct, n, iters) in &plan {
@@ -417,7 +432,7 @@ fn main() {
                 serde_json::json!({"property_id": prop, "tier": tier, "seed": seed, "level": "exploration", "wall_s": 0.0, "coverage": {"evaluations": 0, "distinct_nontrivial": 0, "rule": "", "samples": []}})
             });
             let total: u64 = ITER.load(Ordering::Relaxed);
-            let (real, stub): (Vec<&str>, Vec<&str>) = if prop == "C19" || prop == "C18" || prop == "C01" {
+            let (real, stub): (Vec<&str>, Vec<&str>) = if prop == "C19" || prop == "C18" || prop == "C01" || prop == "C15" {
                 (
                     vec!["rodbus-ffi rodbus_server_update_database / database functions", "rodbus TCP server + session task (handler mutex acquisition per request)", "generated Runtime wrapper on the simulated runtime"],
                     vec!["handler mutex = shuttle::sync::Mutex via cfg(rodbus_verif_shuttle)", "network, clock, executor (simtokio)", "application transaction callback with yields between updates"],
